@@ -24,6 +24,7 @@ EXPLANATION = (
     " (R7) values read from the solver are rounded, never truncated (int() / weight_type() on a raw value) and binaries are read by a threshold, never by == 1; data in equality rows is converted to Python numbers; (R5, extended) the complement total - x is removed only under max_multiplicity == 1; (R3, extended) the k-range grows by t - 1 per partition constraint with t parts. "
     "NOT decided: minimality; that complement removal preserves the optimum."
     ' (R2, round 3) the first k tried is at least 1.'
+    ' (R7, hunt 4) the partition sums are compared exactly when integral and within the rounding error of the sum otherwise (no fixed tolerance).'
 )
 DECIDED = ["formulation of both models", "search protocol and range of MinGenSet", "documented None defaults are usable", "complement removal is strict"]
 NOT_DECIDED = ["the returned multiset / cover is minimum", "complement removal is optimum preserving (number-theoretic argument)"]
